@@ -318,3 +318,95 @@ def simDistsWithSeed : Bool := {B(dists_with_seed)}
 end StarsimModel.Gen.Seed
 '''
     return body, facts
+
+
+# ---------------------------------------------------------------------------
+# where distributions are constructed (C01: "changing the seed changes every distribution's stream")
+
+def dist_classes(src):
+    """ names of the distribution classes defined in starsim/distributions.py (transitive subclasses of Dist, multi_random) """
+    tree = src.tree('starsim/distributions.py')
+    names = {'Dist'}
+    for _ in range(4):
+        for n in tree.body:
+            if isinstance(n, ast.ClassDef) and any(unparse(b).split('.')[-1] in names for b in n.bases):
+                names.add(n.name)
+    for n in tree.body:
+        if isinstance(n, ast.ClassDef) and n.name == 'multi_random': names.add(n.name)
+    return names
+
+
+@generator('DistSites', SCAN_FILES)
+def gen_dist_sites(src):
+    """ Every construction of a distribution object in simulation code, by enclosing class and function.
+        A distribution receives the simulation seed in `Sim.init_dists` (`Dists.init` walks the objects reachable from the
+        sim at that moment): one constructed later (in `step`, `administer`, `init_post`, …) or one that initialises
+        itself (`strict=` anything but True: `Dist.__init__` then calls `self.init()` with no seed) never sees rand_seed.
+          lateDists    constructions outside `__init__` (file, class, function, constructor)
+          selfSeeded   constructions passing `strict=<not literally True>`
+        Also the position of `init_dists` in `Sim.init` relative to the modules' `init_pre` / `init_post`. """
+    dcls = dist_classes(src)
+    late, selfseeded, ctors = [], [], []
+    for rel in SCAN_FILES:
+        tree = ast.parse(open(os.path.join(src.repo, rel)).read())
+        in_dists = rel == 'starsim/distributions.py'
+        def is_ctor(call):
+            f = unparse(call.func); nm = f.split('.')[-1]
+            if nm not in dcls: return None
+            if f == 'ss.' + nm or f == 'ss.distributions.' + nm or f == 'starsim.' + nm or (in_dists and f == nm): return f
+            return None
+        def walk(node, cls, fn):
+            for ch in ast.iter_child_nodes(node):
+                if isinstance(ch, ast.ClassDef): walk(ch, ch.name, fn)
+                elif isinstance(ch, (ast.FunctionDef, ast.AsyncFunctionDef)): walk(ch, cls, ch.name if fn is None else fn + '.' + ch.name)
+                else:
+                    if isinstance(ch, ast.Call):
+                        g = unparse(ch.func)
+                        if g.split('.')[-1] in CONSTRUCTORS and ('random' in g.split('.') or g.split('.')[0] in ('np', 'numpy') or g in CONSTRUCTORS):
+                            ctors.append((rel, cls or '', fn or '', g + '(' + ', '.join([unparse(a) for a in ch.args] + [f'{k.arg}={unparse(k.value)}' for k in ch.keywords]) + ')'))
+                        f = is_ctor(ch)
+                        if f:
+                            if fn is not None and fn.split('.')[0] != '__init__':
+                                late.append((rel, cls or '', fn, f))
+                            for k in ch.keywords:
+                                if k.arg == 'strict' and not (isinstance(k.value, ast.Constant) and k.value.value is True):
+                                    selfseeded.append((rel, cls or '', fn or '', f'{f}(strict={unparse(k.value)})'))
+                                if k.arg is None:   # **kwargs may carry strict
+                                    pass
+                    walk(ch, cls, fn)
+        walk(tree, None, None)
+    late = sorted(set(late)); selfseeded = sorted(set(selfseeded)); ctors = sorted(set(ctors))
+    # Sim.init: init_dists comes after every init_pre and before init_post / the first draw
+    sim_init = src.func('starsim/sim.py', 'init', 'Sim')
+    order = []
+    for n in ast.walk(sim_init):
+        if isinstance(n, ast.Call) and isinstance(n.func, ast.Attribute) and n.func.attr in ('init_pre', 'init_mods_pre', 'init_people', 'init_dists', 'init_post', 'init_vals', 'init_people_vals', 'init_mod_vals'):
+            order.append((n.lineno, n.col_offset, n.func.attr))
+    order = [a for _, _, a in sorted(order)]
+    if 'init_dists' not in order:
+        raise ExtractError('Sim.init does not call init_dists')
+    k = order.index('init_dists')
+    PRE = ('init_pre', 'init_mods_pre', 'init_people')
+    pre_before = all(a not in PRE for a in order[k + 1:]) and any(a in ('init_pre', 'init_mods_pre') for a in order[:k]) and 'init_people' in order[:k]
+    mods_pre = src.func('starsim/sim.py', 'init_mods_pre', 'Sim')
+    if 'init_mods_pre' in order and not calls_in(mods_pre, lambda c: isinstance(c.func, ast.Attribute) and c.func.attr == 'init_pre'):
+        pre_before = False
+    post_after = all(a not in ('init_post', 'init_vals', 'init_people_vals', 'init_mod_vals') for a in order[:k])
+    def tab(rs):
+        return ',\n  '.join(f'({lean_str(a)}, {lean_str(b)}, {lean_str(c)}, {lean_str(d)})' for a, b, c, d in rs)
+    body = f'''namespace StarsimModel.Gen.DistSites
+/-- (file, class, function, constructor): distribution objects constructed outside `__init__` -/
+def lateDists : List (String × String × String × String) := [
+  {tab(late)}]
+/-- (file, class, function, call): distributions constructed with `strict=` anything but `True` (they seed themselves, without rand_seed) -/
+def selfSeeded : List (String × String × String × String) := [
+  {tab(selfseeded)}]
+/-- (file, class, function, call): every construction of a NumPy generator / bit generator / seed sequence in simulation code -/
+def rngConstructors : List (String × String × String × String) := [
+  {tab(ctors)}]
+/-- `Sim.init` calls, in order: {' '.join(order)} -/
+def initPreBeforeInitDists : Bool := {B(pre_before)}
+def initDistsBeforeInitPost : Bool := {B(post_after)}
+end StarsimModel.Gen.DistSites
+'''
+    return body, dict(late=[list(r) for r in late], self_seeded=[list(r) for r in selfseeded], rng_constructors=[list(r) for r in ctors], sim_init_order=order, dist_classes=sorted(dcls))
